@@ -28,6 +28,7 @@ IsEvent(e) == l <= Len(Rec) /\ Rec[l].ev = e
 KindOK(spec, obs) ==
   \/ spec = obs
   \/ spec = "WrongType" /\ obs = "NonProcedure"      \* soundness rule 4: the Type named in TypeMisMatch is not compared
+  \/ spec = "ImmutableVector|IndexRange" /\ obs \in {"ImmutableVector", "IndexRange"}   \* two simultaneous faults: either one
 
 OutcomeOK(r, o) ==
   CASE r.k = "none"  -> o.k = "none"
